@@ -325,9 +325,14 @@ func (w *inotify) remove(name string) error {
 		return err
 	}
 
+	// Don't stop at the first error: for a recursive watch there is more than
+	// one descriptor, and the ones after a failing one (e.g. a directory that
+	// was deleted, but whose delete event wasn't processed yet) would remain
+	// in the kernel, with nothing left in the tables to ever remove them.
+	var first error
 	for _, wd := range wds {
 		_, err := unix.InotifyRmWatch(w.fd, wd)
-		if err != nil {
+		if err != nil && first == nil {
 			// TODO: Perhaps it's not helpful to return an error here in every
 			// case; the only two possible errors are:
 			//
@@ -339,10 +344,10 @@ func (w *inotify) remove(name string) error {
 			// when they are removed explicitly or implicitly; explicitly by
 			// inotify_rm_watch, implicitly when the file they are watching is
 			// deleted.
-			return err
+			first = err
 		}
 	}
-	return nil
+	return first
 }
 
 func (w *inotify) WatchList() []string {
